@@ -1,6 +1,6 @@
 (* Props/C08.v -- Bezier curves and chains. Over R. *)
 From Coq Require Import Reals ZArith List.
-From SCAD Require Import Base.Num Base.NumR Base.Vec Base.Vec_proofs Geom.Dim2 Geom.Dim2_proofs.
+From SCAD Require Import Base.Num Base.NumR Base.Vec Base.Vec_proofs Geom.Dim2 Geom.Dim2_proofs Geom.Bezier_chains.
 Import ListNotations.
 Local Open Scope R_scope.
 
@@ -62,3 +62,81 @@ Proof. exact chain_points_length. Qed.
 Theorem C08_star_paths_agree : forall n inner ihl outer ohl seg,
   @bezier_star R _ n inner ihl outer ohl seg = chain2_points (bezier_star_struct n inner ihl outer ohl seg).
 Proof. reflexivity. Qed.
+
+(* quadratic curves and the 3D curves: the same sample theorem *)
+Theorem C08_sampled_points_quadratic_and_3d :
+  (forall (s c e : pt2 R) segments, (1 <= segments)%Z ->
+     length (quadratic_bezier s c e segments) = Z.to_nat (segments + 1) /\
+     (forall i, (i < Z.to_nat (segments + 1))%nat ->
+        nth i (quadratic_bezier s c e segments) s = bern2 s c e (IZR (Z.of_nat i) / IZR segments)) /\
+     nth 0 (quadratic_bezier s c e segments) s = s /\
+     nth (Z.to_nat segments) (quadratic_bezier s c e segments) s = e) /\
+  (forall t, 0 <= t <= 1 -> 0 <= (1 - t) ^ 2 /\ 0 <= 2 * t * (1 - t) /\ 0 <= t ^ 2 /\ (1 - t) ^ 2 + 2 * t * (1 - t) + t ^ 2 = 1) /\
+  (forall (s c1 c2 e : pt3 R) segments, (1 <= segments)%Z ->
+     length (cubic_bezier3 s c1 c2 e segments) = Z.to_nat (segments + 1) /\
+     (forall i, (i < Z.to_nat (segments + 1))%nat ->
+        nth i (cubic_bezier3 s c1 c2 e segments) s = bern3_3 s c1 c2 e (IZR (Z.of_nat i) / IZR segments)) /\
+     nth 0 (cubic_bezier3 s c1 c2 e segments) s = s /\
+     nth (Z.to_nat segments) (cubic_bezier3 s c1 c2 e segments) s = e) /\
+  (forall (s c e : pt3 R) segments, (1 <= segments)%Z ->
+     length (quadratic_bezier3 s c e segments) = Z.to_nat (segments + 1) /\
+     (forall i, (i < Z.to_nat (segments + 1))%nat ->
+        nth i (quadratic_bezier3 s c e segments) s = bern2_3 s c e (IZR (Z.of_nat i) / IZR segments)) /\
+     nth 0 (quadratic_bezier3 s c e segments) s = s /\
+     nth (Z.to_nat segments) (quadratic_bezier3 s c e segments) s = e).
+Proof. exact (conj quadratic_bezier_points (conj bernstein2_weights (conj cubic_bezier3_points quadratic_bezier3_points))). Qed.
+
+(* gen_points of a chain, point by point: point i of curve k sits at (sum of the earlier segment counts) + i and is that curve's
+   Bernstein point at i/segments -- so the chain passes through every knot, in order, each joint appears once, an open chain ends on
+   the end point of its last curve and a closed one stops before repeating its first point *)
+Theorem C08_chain_points : forall (ch : @chain2 R), (forall c, In c (ch_curves ch) -> (1 <= c_segments c)%Z) ->
+  (forall k i, (k < length (ch_curves ch))%nat -> (i < Z.to_nat (c_segments (nth k (ch_curves ch) dummy_curve2)))%nat ->
+     let c := nth k (ch_curves ch) dummy_curve2 in
+     nth (offset2 (ch_curves ch) k + i) (chain2_points ch) (c_start c) =
+     bern3 (c_start c) (c_control1 c) (c_control2 c) (c_end c) (IZR (Z.of_nat i) / IZR (c_segments c))) /\
+  (forall k, (k < length (ch_curves ch))%nat ->
+     nth (offset2 (ch_curves ch) k) (chain2_points ch) (c_start (nth k (ch_curves ch) dummy_curve2)) = c_start (nth k (ch_curves ch) dummy_curve2)) /\
+  (ch_curves ch <> [] -> ch_closed ch = false -> forall d, last (chain2_points ch) d = c_end (last (ch_curves ch) dummy_curve2)) /\
+  (ch_curves ch <> [] -> ch_closed ch = true -> length (chain2_points ch) = offset2 (ch_curves ch) (length (ch_curves ch))).
+Proof.
+  intros ch Hs. split; [|split; [|split]].
+  - intros k i Hk Hi. exact (chain2_point_at ch k i Hs Hk Hi).
+  - intros k Hk. exact (chain2_knot ch k Hs Hk).
+  - intros Hne Hcl d. exact (chain2_last_point ch d Hne Hs Hcl).
+  - intros Hne Hcl. exact (chain2_closed_length ch Hne Hs Hcl).
+Qed.
+
+(* CubicBezierChain3D: the same invariants and the same point-by-point description *)
+Theorem C08_chain3_history : forall s c1 c2 e seg (ops : list chain_op3),
+  let ch := fold_left apply_op3 ops (chain3_new s c1 c2 e seg) in
+  chained3 (dh_curves ch) /\ dh_curves ch <> [] /\ dh_closed ch = false /\ d_start (hd dummy_curve3 (dh_curves ch)) = s.
+Proof. exact chain3_history_inv. Qed.
+
+Theorem C08_chain3_close : forall (ch : @chain3 R) len c2 slen seg, dh_curves ch <> [] -> chained3 (dh_curves ch) ->
+  let ch' := chain3_close ch len c2 slen seg in
+  dh_closed ch' = true /\
+  d_end (last (dh_curves ch') dummy_curve3) = d_start (hd dummy_curve3 (dh_curves ch')) /\
+  joined3 (last (dh_curves ch') dummy_curve3) (hd dummy_curve3 (dh_curves ch')) /\
+  length (dh_curves ch') = S (length (dh_curves ch)).
+Proof. exact chain3_close_inv. Qed.
+
+Theorem C08_tangent_direction3 : forall (e c2 : pt3 R) len, pt3_nonzero (pt3_sub e c2) -> 0 < len ->
+  exists k, 0 < k /\ pt3_sub (handle3 e c2 len) e = pt3_mul (pt3_sub e c2) k.
+Proof. exact handle3_direction. Qed.
+
+Theorem C08_chain3_points : forall (ch : @chain3 R), (forall c, In c (dh_curves ch) -> (1 <= d_segments c)%Z) ->
+  (forall k i, (k < length (dh_curves ch))%nat -> (i < Z.to_nat (d_segments (nth k (dh_curves ch) dummy_curve3)))%nat ->
+     let c := nth k (dh_curves ch) dummy_curve3 in
+     nth (offset3 (dh_curves ch) k + i) (chain3_points ch) (d_start c) =
+     bern3_3 (d_start c) (d_control1 c) (d_control2 c) (d_end c) (IZR (Z.of_nat i) / IZR (d_segments c))) /\
+  (forall k, (k < length (dh_curves ch))%nat ->
+     nth (offset3 (dh_curves ch) k) (chain3_points ch) (d_start (nth k (dh_curves ch) dummy_curve3)) = d_start (nth k (dh_curves ch) dummy_curve3)) /\
+  (dh_curves ch <> [] -> dh_closed ch = false -> forall d, last (chain3_points ch) d = d_end (last (dh_curves ch) dummy_curve3)) /\
+  (dh_curves ch <> [] -> dh_closed ch = true -> length (chain3_points ch) = offset3 (dh_curves ch) (length (dh_curves ch))).
+Proof.
+  intros ch Hs. split; [|split; [|split]].
+  - intros k i Hk Hi. exact (chain3_point_at ch k i Hs Hk Hi).
+  - intros k Hk. exact (chain3_knot ch k Hs Hk).
+  - intros Hne Hcl d. exact (chain3_last_point ch d Hne Hs Hcl).
+  - intros Hne Hcl. exact (chain3_closed_length ch Hne Hs Hcl).
+Qed.
